@@ -13,7 +13,7 @@ trap cleanup EXIT
 DEMOPKG=$(python3 -c "import json,sys;m=json.load(open('$D/meta.json'));print(m.get('demo_location','s2/demo_test.go').split(' ')[0])")
 DEMODIR=$(dirname "$DEMOPKG")
 DEMORUN=$(grep -o 'func Test[A-Za-z0-9_]*' "$D/demo_test.go" | sed 's/func //' | paste -sd'|')
-cp "$D/demo_test.go" "$WT/$DEMODIR/zz_demo_test.go"
+mkdir -p "$WT/$DEMODIR"; cp "$D/demo_test.go" "$WT/$DEMODIR/zz_demo_test.go"
 ( cd "$WT" && go test -vet=off -count=1 -run "^($DEMORUN)\$" ./$DEMODIR >/tmp/seedconfirm/$$.without 2>&1 ); W0=$?
 ( cd "$WT" && git apply "$D/patch.diff" ) || { echo "PATCH DOES NOT APPLY"; exit 2; }
 ( cd "$WT" && go build ./... && go build -tags verif ./... ) >/tmp/seedconfirm/$$.build 2>&1; VB=$?
